@@ -301,6 +301,7 @@ class Ctx:
         self.const_cache = {}
         self.positive = set()  # atom names assumed > 0 (declared by the rule, listed in evidence)
         self.expand_minmax = False  # min/max as case splits (decidable bounds reasoning)
+        self.int_ranges = {}  # atom name -> (lo, hi) for integer-typed inputs (declared by the rule)
 
     # constructors ---------------------------------------------------------
     def num(self, c):
@@ -323,6 +324,10 @@ class Ctx:
             r = _exact_root(c, 2 if name == "sqrt" else 3)
             if r is not None:
                 return self.num(r)
+        if name in ("from_bits", "float.from_bits") and isinstance(args[0], RatFunc):
+            r = _fold_from_bits(args[0], self)
+            if r is not None:
+                return r
         if name == "abs" and isinstance(args[0], RatFunc) and args[0].is_const():
             return self.num(abs(args[0].const_value()))
         if name in ("min", "max") and all(isinstance(a, RatFunc) and a.is_const() for a in args):
@@ -468,6 +473,40 @@ class Ctx:
             self._cond_rf[c] = list(xs)
             return Ite(c, True, False)
         return mapn(leaf, list(args))
+
+
+def _float_of_bits(n):
+    import struct
+    if n < 2 ** 32:
+        return Fraction(struct.unpack("<f", struct.pack("<I", n))[0])
+    return Fraction(struct.unpack("<d", struct.pack("<Q", n))[0])
+
+
+def _fold_from_bits(rf, ctx):
+    """from_bits(c) for a constant; from_bits(bits(2^k) + t) = 2^k + t for an integer t declared to lie
+    in [0, 2^k) (ctx.int_ranges) — the magic-number identity of Hacker's Delight."""
+    if rf.is_const():
+        c = rf.const_value()
+        if c.denominator == 1 and 0 <= c < 2 ** 64:
+            return ctx.num(_float_of_bits(int(c)))
+        return None
+    if not poly.p_is_const(rf.den) or poly.p_const_value(rf.den) != 1:
+        return None
+    c = rf.num.get((), Fraction(0))
+    rest = {m: v for m, v in rf.num.items() if m != ()}
+    if len(rest) != 1 or c.denominator != 1:
+        return None
+    (m, coef), = rest.items()
+    if coef != 1 or len(m) != 1 or m[0][1] != 1:
+        return None
+    at = poly.atom_by_id(m[0][0])
+    rng = ctx.int_ranges.get(at.name)
+    if rng is None:
+        return None
+    for k, bits in ((23, 0x4B000000), (52, 0x4330000000000000)):
+        if int(c) == bits and 0 <= rng[0] and rng[1] < 2 ** k:
+            return ctx.num(2 ** k) + RatFunc.atom(at, ctx.tab)
+    return None
 
 
 def _cube_of_linear(d, ctx):
@@ -1547,6 +1586,8 @@ class Evaluator:
                 m = re.match(r"^(?:core|std)::num::<impl (u8|u16|u32|u64|u128|usize|i8|i16|i32|i64|i128)>::(\w+)$", path)
                 if m:
                     key = "int." + m.group(2)
+        if key is None and re.match(r"^(?:core|std)::convert::num::<impl (?:core|std)::convert::From<\w+> for \w+>::from$", path):
+            key = "id."  # lossless numeric widening
         if key is None:
             m = re.match(r"^wide::(?:\w+::)*(f32x4|f32x8|f64x2|f64x4)::(\w+)$", path) \
                 or re.match(r"^wide::<impl wide::(f32x4|f32x8|f64x2|f64x4)>::(\w+)$", path) \
